@@ -448,13 +448,17 @@ def check_contract(ctx, sol, system, solver_name, cls, t0, t1, dt, truncated, de
                     except StopIteration:
                         return n_
                     n_ += 1
-            it1 = iter(sol); first = next(it1); it2 = iter(sol); n_rest = drain(it1); n_second = drain(it2)
+            if nt >= 1:
+                it1 = iter(sol); first = next(it1); it2 = iter(sol); n_rest = drain(it1); n_second = drain(it2)
+            else:
+                # (a run that was stopped in its very first step returns no instants at all: nothing to look ahead to)
+                first, n_rest, n_second = None, nt - 1, drain(iter(sol))
             nested = sum(1 for _a in sol for _b in (sol if nt <= 60 else [0]))
         except Exception as e:
             ctx.violation("Solution.__iter__", "simultaneous iterations over the solution raise", {**det, "error": f"{type(e).__name__}: {e}"[:300]})
         else:
             want_nested = nt * (nt if nt <= 60 else 1)
-            if len(pairs) != nt or any(a.t != b.t or a.t != t[i] for i, (a, b) in enumerate(pairs)) or n_rest != nt - 1 or n_second != nt or nested != want_nested or first.t != t[0]:
+            if len(pairs) != nt or any(a.t != b.t or a.t != t[i] for i, (a, b) in enumerate(pairs)) or n_rest != nt - 1 or n_second != nt or nested != want_nested or (nt >= 1 and first.t != t[0]):
                 ctx.violation("Solution.__iter__", "two iterations over the same solution disturb each other (records skipped or mismatched)",
                               {**det, "zip_pairs": len(pairs), "rest_of_first_iterator": n_rest, "second_iterator": n_second, "nested_count": nested, "nested_expected": want_nested})
     # ---- save / load
